@@ -94,6 +94,7 @@ type childResp struct {
 	ReqOK   bool      `json:"req_ok"` // the parameters handed back by FetchSearchResult equal the request's
 	PerFrac []fracQPR `json:"per_frac,omitempty"`
 	Files   []string  `json:"files,omitempty"`
+	Names   []string  `json:"names,omitempty"`
 }
 
 // exactUnits renders f*16 as an integer; values that are not a multiple of 1/16 (never produced by
@@ -256,6 +257,16 @@ func registerChildOps() {
 			}
 		}
 		return answer(childResp{}), fracbuild.Append(c.FM, docs)
+	})
+	// names of the fractions that hold documents (the live list)
+	storectl.Register("c19.fracs", func(c *storectl.Child, r storectl.Req) (storectl.Resp, error) {
+		var out childResp
+		for _, f := range c.FM.GetAllFracs() {
+			if f.Info().DocsTotal > 0 {
+				out.Names = append(out.Names, f.Info().Name())
+			}
+		}
+		return answer(out), nil
 	})
 	// start the asynchronous searcher on the open FracManager: loads the persisted requests and resumes
 	// the unfinished ones (MustStartAsync)
